@@ -47,6 +47,8 @@ def run(ctx):
     rep.rule("C18.R5", "local normal/friction connectivity of the active set (index typing in compute_I_F)", 4)
     rep.rule("C18.R6", "one evaluation point (t, q) for all gap-rate terms of a velocity-level Signorini update", 3)
     nf_link(ctx)
+    rep.rule("C18.R7", "operator form of the restituted gap rate: coefficient of the obstacle velocity chi equals one plus the coefficient of W^T u(-)", 2)
+    restitution_coefficients(ctx)
     for rel, cname, q, level in SITES:
         cls = ctx.repo.get(rel, cname)
         fn = ctx.repo.get(rel, q)
@@ -162,6 +164,57 @@ def evaluation_point(rep, C, rel, call, arg, res, rule="C18.R6"):
         rep.bad(rule, C, proxrule._stmt_of(call), "the Newton-restituted gap rate mixes evaluation points: " + desc +
                 " - the pre-impact approach speed is measured along another normal than the one the percussion and the post-impact "
                 "gap rate use (kinetic energy can increase in a frictionless impact with e_N = 1)", f"{rel}:{call.lineno}")
+
+
+def restitution_coefficients(ctx, rule="C18.R7"):
+    """Operator form of the restituted gap rate (Moreau): with g_N_dot(t, q, u) = W_N^T u + chi_N,
+        xi_N = g_N_dot(+) + e_N g_N_dot(-) = W_N^T u+  +  [ e_N W_N^T u-  +  (1 + e_N) chi_N ],
+    so in the constant part xi_N0 the coefficient of chi_N is ONE PLUS the coefficient of W_N^T un (likewise xi_F0 with e_F, chi_F).
+    chi is the part of the contact velocity that comes from a moving obstacle: with `chi_N` instead of `(1 + e_N) chi_N` the impact law is
+    applied to W^T u only, and P_N > 0 is not complementary to the restituted gap rate of a contact against a moving plane."""
+    from ..wterms import Terms
+    rep = ctx.rep
+    rel = MO
+    cls = ctx.repo.get(rel, "Moreau")
+    step = ctx.repo.get(rel, "Moreau.step")
+    C = f"{rel}:Moreau.step"
+    n = 0
+    for attr, W, chi in (("xi_N0", "W_N", "chi_N"), ("xi_F0", "W_F", "chi_F")):
+        sts = [x for x in ast.walk(step) if isinstance(x, ast.Assign) and any(dotted(t) == f"self.{attr}" for t in x.targets)]
+        if not sts:
+            continue
+        n += 1
+        st = sts[-1]
+
+        def atom(e):
+            d = dotted(e)
+            if isinstance(e, ast.Attribute) and e.attr == "T":
+                return atom(e.value)
+            if d in (f"self.{W}", W):
+                return W
+            if isinstance(e, ast.Name):
+                return e.id
+            if isinstance(e, ast.Attribute) and d:
+                return d
+            return None
+        T = Terms(ast.parse("def f():\n    pass").body[0], atom)
+        terms = T.expand(st.value)
+        vel = [(c, tuple(sorted(a for a in f if a not in (W, "un")))) for c, f in terms if W in f and "un" in f]
+        chis = sorted((c, tuple(sorted(a for a in f if a != chi))) for c, f in terms if chi in f)
+        if not vel:
+            rep.note(f"{rule}: {C}: `{norm_src(st)[:70]}` has no term {W}.T @ un (not the operator form; no verdict)")
+            continue
+        from fractions import Fraction
+        want = sorted([(Fraction(1), ())] + vel)
+        if chis == want:
+            rep.ok(rule, C, f"self.{attr}: coefficient of {chi} = 1 + coefficient of {W}.T @ un ({' + '.join('*'.join(f) or str(c) for c, f in want)})")
+        else:
+            show = lambda L: " + ".join((str(c) if not f else (("" if c == 1 else str(c) + "*") + "*".join(f))) for c, f in L) or "0"
+            rep.bad(rule, C, st, f"`{norm_src(st)}`: the coefficient of {chi} is ({show(chis)}) but the restituted gap rate g_dot(+) + e g_dot(-) with g_dot = {W}^T u + {chi} needs "
+                    f"({show(want)}): for a contact against a moving obstacle ({chi} != 0) the percussion is not complementary to the restituted gap rate (Newton's law is applied to "
+                    f"{W}^T u only)", f"{rel}:{st.lineno}")
+    if n < 2:
+        raise AnalysisError(f"{rule}: constant parts self.xi_N0 / self.xi_F0 not found in Moreau.step")
 
 
 def _mentions(res, expr, attr, depth=0, seen=None):
@@ -345,7 +398,13 @@ MUTANTS += [
     dict(id="c18-r6-2", what="DualStormerVerlet: xi_N called with the old configuration as pre-impact point", file=DSV,
          old="                xi_N = self.system.xi_N(tm, tm, qm, qm, un, un1)\n", new="                xi_N = self.system.xi_N(tn, tm, qn, qm, un, un1)\n", expect="C18.R6"),
 ]
+MUTANTS += [
+    dict(id="c18-r7-seed", canary=True, what="[seeded by sub-agent] Moreau: obstacle velocity chi_N enters xi_N0 without the factor (1 + e_N)", file=MO,
+         old="            self.xi_N0 = e_N * (self.W_N.T @ un) + (1 + e_N) * chi_N\n", new="            self.xi_N0 = e_N * (self.W_N.T @ un) + chi_N\n", expect="C18.R7"),
+]
 NEUTRAL = [
+    dict(id="c18-n-r7", canary=True, what="Moreau: xi_N0 written as e_N * (W_N.T un + chi_N) + chi_N", file=MO,
+         old="            self.xi_N0 = e_N * (self.W_N.T @ un) + (1 + e_N) * chi_N\n", new="            self.xi_N0 = e_N * (self.W_N.T @ un + chi_N) + chi_N\n"),
     dict(id="c18-n-r6", canary=True, what="DualStormerVerlet: xi_N decomposed, both terms at the midpoint", file=DSV,
          old="                xi_N = self.system.xi_N(tm, tm, qm, qm, un, un1)\n",
          new="                xi_N = self.system.g_N_dot(tm, qm, un1) + self.system.e_N * self.system.g_N_dot(tm, qm, un)\n"),
